@@ -20,6 +20,7 @@ class Grammar:
         self.preds = PredEval(pred_fns)
         self.trees = {}
         self.map_literals = []  # string literals found inside .map closures (must be `{}` templates)
+        self._pred_cache = {}
 
     # ------------------------------------------------------------ construction
     def tree(self, name):
@@ -155,7 +156,9 @@ class Grammar:
 
     # ------------------------------------------------------------ static properties
     def _pred(self, name):
-        return self.preds.fn_set(name)
+        if name not in self._pred_cache:
+            self._pred_cache[name] = self.preds.fn_set(name)
+        return self._pred_cache[name]
 
     def nullable(self, t, seen=()):
         k = t[0]
